@@ -9,11 +9,27 @@
 #include "xcmp.hpp"
 using namespace xcmp;
 
+static int xf_pipeline(Parser &parser, std::ostream *bin, std::ostream *listing);
+
 extern "C" {
+// token level: no character source; Lexer::readToken is replaced by the engine (an arbitrary token sequence)
+__attribute__((noinline)) int xf_compile_tokens(std::ostream *bin, std::ostream *listing) {
+  Lexer lexer; Parser parser(lexer);
+  return xf_pipeline(parser, bin, listing);
+}
+void *xf_lexer_field(Lexer *lx, int k) {
+  switch (k) { case 0: return &lx->identifier; case 1: return &lx->value; case 2: return &lx->string; case 3: return &lx->lastToken; }
+  return nullptr;
+}
 __attribute__((noinline)) int xf_compile(std::istream *in, std::ostream *bin, std::ostream *listing) {
   Lexer lexer; Parser parser(lexer);
   struct Release { Lexer &l; ~Release() { (void)l.file.release(); } } guard{lexer};   // the stream belongs to the engine, also when an error unwinds
   lexer.file.reset(in); lexer.readChar();                 // what loadBuffer/openFile do after opening
+  return xf_pipeline(parser, bin, listing);
+}
+}
+
+static int xf_pipeline(Parser &parser, std::ostream *bin, std::ostream *listing) {
   auto tree = parser.parseProgram();
   SymbolTable symbolTable;
   CreateSymbols createSymbols(symbolTable); tree->accept(&createSymbols);
@@ -32,5 +48,4 @@ __attribute__((noinline)) int xf_compile(std::istream *in, std::ostream *bin, st
     listing->write(reinterpret_cast<const char*>(v), sizeof v); k++;
   }
   return k;
-}
 }
